@@ -1,11 +1,17 @@
 #!/usr/bin/env python3
 """Collects confirmed seeded changes from /tmp/seed into /verif/seeded/<prop>-m<k>/."""
 import json, os, glob, shutil, re, sys
+NOTES={
+ 'C08-r2m2': 'NOT DETECTED, and judged outside the stated domains: the change only shows for a Patch that did not come from DecodePatch (json.Unmarshal into jsonpatch.Patch with an unknown "op"); every property quantifies over patches accepted by DecodePatch (C01) and C04 names hand-assembled Patch values as excluded. Kept as a record of a miss that is a scope decision, not an oracle gap.',
+}
 out='/verif/seeded'
 os.makedirs(out, exist_ok=True)
-for rf in sorted(glob.glob('/tmp/seed/results/*.json')):
+for rf in sorted(glob.glob('/tmp/seed/results/*.json'))+sorted(glob.glob('/tmp/seed/results2/*.json')):
+    rnd2='results2' in rf
     name=os.path.basename(rf)[:-5]           # C01-m1
     pid,m=name.split('-')
+    srcdir='/tmp/seed/out2' if rnd2 else '/tmp/seed/out'
+    if rnd2: name=pid+'-r2'+m
     s=open(rf).read()
     try: r=json.loads(s[s.index('{'):])
     except Exception as e:
@@ -14,10 +20,10 @@ for rf in sorted(glob.glob('/tmp/seed/results/*.json')):
         print('skip',name,'not confirmed'); continue
     d=os.path.join(out,name)
     os.makedirs(d, exist_ok=True)
-    shutil.copy(f'/tmp/seed/out/{pid}/{m}.diff', os.path.join(d,'patch.diff'))
+    shutil.copy(f'{srcdir}/{pid}/{m}.diff', os.path.join(d,'patch.diff'))
     demo=r['demo']
     shutil.copy(demo, os.path.join(d,'demo'+('_test.go' if demo.endswith('_test.go') else os.path.splitext(demo)[1])))
-    md=f'/tmp/seed/out/{pid}/{m}.md'
+    md=f'{srcdir}/{pid}/{m}.md'
     notes=open(md).read() if os.path.exists(md) else ''
     if notes: open(os.path.join(d,'notes.md'),'w').write(notes)
     caught={}
@@ -35,5 +41,7 @@ for rf in sorted(glob.glob('/tmp/seed/results/*.json')):
                         'demo_fails_with_change': r['demo_changed_rc']!=0, 'demo_passes_without_change': r['demo_clean_rc']==0},
           'what_was_run': r['ran'], 'checks_run_against_it': caught,
           'detected_by': sorted(k for k,v in caught.items() if v['detected'])}
+    if name in NOTES:
+        meta['assessment']=NOTES[name]
     json.dump(meta, open(os.path.join(d,'meta.json'),'w'), indent=1)
     print(name, 'detected by', meta['detected_by'] or 'NOTHING')
